@@ -73,7 +73,9 @@ func installGoroutineHooks() {
 		gc.mu.Lock()
 		gc.m4[g] = append(gc.m4[g], s)
 		gc.mu.Unlock()
-		return true
+		// a link-level reply on a listener bound to a real interface goes on through sendEthernet (the frame is built,
+		// the frame hook below keeps it off the wire): that code runs in the datagram's goroutine as well
+		return !(s.L2 && realL2)
 	}
 	server.VerifSend6Hook = func(s server.VerifSent6) bool {
 		g := goid()
@@ -589,8 +591,11 @@ func feed(l4 *server.VerifListener4, l6 *server.VerifListener6, proto int, b []b
 	return fr
 }
 
+var realL2 = false // the listeners of this process are bound to an interface that has a hardware address
+
 func boundIndex() int {
 	if ifs := macInterfaces(); len(ifs) > 0 {
+		realL2 = true
 		return ifs[0].Index
 	}
 	return 5
